@@ -16,6 +16,7 @@ import (
 	"encoding/base64"
 	"encoding/json"
 	"fmt"
+	"io"
 	"math/big"
 	"sync"
 
@@ -152,6 +153,37 @@ type CertSpec struct {
 	ValidAfter  uint64            `json:"valid_after"`
 	ValidBefore uint64            `json:"valid_before"`
 	CritOpts    map[string]string `json:"crit_opts,omitempty"`
+	// CASig selects the CA key and signature format: "" (Ed25519) | rsa-sha1 (the legacy "ssh-rsa" format) |
+	// rsa-sha2-256 | rsa-sha2-512 | ecdsa
+	CASig string `json:"ca_sig,omitempty"`
+}
+
+// fixedAlgoSigner signs with one signature algorithm of its key, whatever the caller would negotiate.
+type fixedAlgoSigner struct {
+	s    ssh.AlgorithmSigner
+	algo string
+}
+
+func (f fixedAlgoSigner) PublicKey() ssh.PublicKey { return f.s.PublicKey() }
+func (f fixedAlgoSigner) Sign(r io.Reader, d []byte) (*ssh.Signature, error) {
+	return f.s.SignWithAlgorithm(r, d, f.algo)
+}
+
+// CASigner returns the CA signer for a certificate spec.
+func CASigner(label, casig string) ssh.Signer {
+	switch casig {
+	case "rsa-sha1", "rsa-sha2-256", "rsa-sha2-512":
+		poolOnce.Do(loadPool)
+		rs, err := ssh.NewSignerFromSigner(pool[2048][len(pool[2048])-1])
+		if err != nil {
+			panic(err)
+		}
+		algo := map[string]string{"rsa-sha1": ssh.KeyAlgoRSA, "rsa-sha2-256": ssh.KeyAlgoRSASHA256, "rsa-sha2-512": ssh.KeyAlgoRSASHA512}[casig]
+		return fixedAlgoSigner{rs.(ssh.AlgorithmSigner), algo}
+	case "ecdsa":
+		return Signer(KindEC, "ca:"+label)
+	}
+	return Signer(KindEd, "ca:"+label)
 }
 
 // KindSK is a security-key (sk-ssh-ed25519@openssh.com) public key: it can be listed and certified, the
@@ -193,7 +225,7 @@ func Cert(s CertSpec) *ssh.Certificate {
 	}
 	c.Permissions.CriticalOptions = s.CritOpts
 	c.Permissions.Extensions = map[string]string{"permit-pty": ""}
-	ca := Signer(KindEd, "ca:"+s.CALabel)
+	ca := CASigner(s.CALabel, s.CASig)
 	if err := c.SignCert(zeroReader{}, ca); err != nil {
 		panic(err)
 	}
